@@ -69,6 +69,44 @@ def srgb_values(src):
         vals[name] = (int(mm.group(1)), int(mm.group(2)))
     return [g] + [v for name in ("white", "red", "green", "blue") for v in vals[name]]
 
+def color_types(src):
+    """ColorType::from_u8 arms joined with samples_u8: [(value, samples)]"""
+    body = re.search(r"pub fn from_u8\(n: u8\) -> Option<ColorType> \{\s*match n \{(.*?)_ => None", src, re.S).group(1)
+    arms = re.findall(r"(\d+) => Some\(ColorType::(\w+)\)", body)
+    sm = re.search(r"fn samples_u8\(self\) -> u8 \{.*?match self \{(.*?)\n        \}", src, re.S).group(1)
+    samples = {}
+    for names, n in re.findall(r"([\w| ]+?) => (\d+),", sm):
+        for nm in names.split("|"):
+            samples[nm.strip()] = int(n)
+    return [(int(v), samples[name]) for v, name in arms]
+
+def bit_depths(src):
+    body = re.search(r"pub fn from_u8\(n: u8\) -> Option<BitDepth> \{\s*match n \{(.*?)_ => None", src, re.S).group(1)
+    return [int(v) for v in re.findall(r"(\d+) => Some\(BitDepth::\w+\)", body)]
+
+def invalid_combos(src):
+    """is_combination_invalid: ((depth in A) && (color in B)) || (depth == D && color == C) -> [(color value, depth)]"""
+    body = re.search(r"fn is_combination_invalid\(self, bit_depth: BitDepth\) -> bool \{(.*?)\n    \}", src, re.S).group(1)
+    body = re.sub(r"//.*", "", body)
+    m = re.fullmatch(r"\s*\(\(((?:bit_depth == BitDepth::\w+\s*\|\|\s*)*bit_depth == BitDepth::\w+)\)\s*&&\s*\(((?:self == ColorType::\w+\s*\|\|\s*)*self == ColorType::\w+)\)\)\s*\|\|\s*\(bit_depth == BitDepth::(\w+) && self == ColorType::(\w+)\)\s*", body, re.S)
+    dn = {"One": 1, "Two": 2, "Four": 4, "Eight": 8, "Sixteen": 16}
+    cbody = re.search(r"pub fn from_u8\(n: u8\) -> Option<ColorType> \{\s*match n \{(.*?)_ => None", src, re.S).group(1)
+    cn = {name: int(v) for v, name in re.findall(r"(\d+) => Some\(ColorType::(\w+)\)", cbody)}
+    ds = [dn[x] for x in re.findall(r"BitDepth::(\w+)", m.group(1))]
+    cs = [cn[x] for x in re.findall(r"ColorType::(\w+)", m.group(2))]
+    out = sorted([(c, d) for d in ds for c in cs] + [(cn[m.group(4)], dn[m.group(3)])])
+    return out
+
+def parse_dispatch(src):
+    """the chunk kinds `parse_chunk` has an arm for, in order"""
+    body = re.search(r"fn parse_chunk\(&mut self, type_str: ChunkType\).*?let mut parse_result = match type_str \{(.*?)_ => Ok\(Decoded::PartialChunk", src, re.S).group(1)
+    names = re.findall(r"^\s*(?:chunk::)?(\w+)(?: if [^=]*)? =>", body, re.M)
+    return [[ord(c) for c in n] for n in names]
+
+def row_filters(src):
+    body = re.search(r"impl RowFilter \{\s*pub fn from_u8\(n: u8\) -> Option<Self> \{\s*match n \{(.*?)_ => None", src, re.S).group(1)
+    return [int(v) for v in re.findall(r"(\d+) => Some\(Self::\w+\)", body)]
+
 RULES = [
     ("benignChunks", "src/decoder/stream.rs", benign_list),
     ("srgbSubstitutes", "src/srgb.rs", srgb_values),
@@ -83,6 +121,17 @@ RULES = [
     ("adam7Pass", "src/adam7.rs", adam7_init_pass),
     ("adam7Bits", "src/adam7.rs", adam7_expand_bits),
     ("signature", "src/decoder/stream.rs", signature),
+    ("colorTypes", "src/common.rs", color_types),
+    ("bitDepths", "src/common.rs", bit_depths),
+    ("invalidCombos", "src/common.rs", invalid_combos),
+    ("parseDispatch", "src/decoder/stream.rs", parse_dispatch),
+    ("rowFilters", "src/filter.rs", row_filters),
+    ("criticalMask", "src/chunk.rs", lambda s: arith(re.search(r"pub fn is_critical\(ChunkType\(type_\): ChunkType\) -> bool \{\s*type_\[0\] & (\d+) == 0", s).group(1))),
+    ("maxIdatChunkLen", "src/encoder.rs", lambda s: (lambda e: (2**32 - 1) >> int(e))(re.search(r"const MAX_IDAT_CHUNK_LEN: u32 = u32::MAX >> (\d+);", s).group(1))),
+    ("maxFdatChunkLen", "src/encoder.rs", lambda s: (lambda m: ((2**32 - 1) >> int(m.group(1))) - int(m.group(2)))(re.search(r"const MAX_fdAT_CHUNK_LEN: u32 = \(u32::MAX >> (\d+)\) - (\d+);", s))),
+    ("streamChunkCap", "src/encoder.rs", lambda s: (lambda e: (2**32 - 1) >> int(e))(re.search(r"const CAP: usize = u32::MAX as usize >> (\d+);", s).group(1))),
+    ("streamMinBuffer", "src/encoder.rs", lambda s: arith(re.search(r"buffer: vec!\[0; CAP\.min\(buf_len\)\.max\((\d+)\)\]", s).group(1))),
+    ("defaultBufferLength", "src/encoder.rs", lambda s: arith(re.search(r"const DEFAULT_BUFFER_LENGTH: usize = ([^;]+);", s).group(1))),
 ]
 
 def lean_val(v):
@@ -98,6 +147,11 @@ TYPES = {
     "adam7Pass": "List (Nat × Nat × Nat × Nat)",
     "adam7Bits": "List (Nat × Nat × Nat × Nat)",
     "signature": "List Nat",
+    "colorTypes": "List (Nat × Nat)",
+    "bitDepths": "List Nat",
+    "invalidCombos": "List (Nat × Nat)",
+    "parseDispatch": "List (List Nat)",
+    "rowFilters": "List Nat",
 }
 
 def main():
@@ -115,6 +169,8 @@ def main():
             if name in prev:
                 v = prev[name]
                 def fix(x):
+                    if TYPES.get(name, "").startswith("List (List"):
+                        return x
                     return [tuple(y) if isinstance(y, list) else y for y in x] if isinstance(x, list) else x
                 vals[name] = fix(v)
             else:
